@@ -527,10 +527,18 @@ _HELD = {}
 def _(w, o):
     t = _tx_like(w, o)
     spks = [mk_script(s) for s in o["spks"]]
+    if o.get("ba"):
+        # the caller's scripts are backed by bytearrays it owns (Script.__init__ keeps the object it is given)
+        spks = [type(x)(bytearray(x.data)) for x in spks]
     vals = list(o["values"])
     prev = _HELD.get(id(t))
     if o.get("reuse") and prev is not None and prev[2] is t:
-        if o.get("reuse") == "script" and len(prev[0]) == len(spks):
+        if o.get("reuse") == "bytes" and len(prev[0]) == len(spks) and all(isinstance(x.data, bytearray) for x in prev[0]):
+            # the BYTES of the held scripts are edited in place: same list, same Script objects, same bytearray objects
+            # (audit2 B-7: a memo key that holds `sc.data` itself compares equal to itself afterwards)
+            for old, new in zip(prev[0], spks):
+                old.data[:] = new.data
+        elif o.get("reuse") in ("script", "bytes") and len(prev[0]) == len(spks):
             # the Script objects themselves are edited in place
             for old, new in zip(prev[0], spks):
                 old.data = new.data
